@@ -173,6 +173,26 @@ pub fn payload_from_json(v: &Value) -> Vec<u8> {
         }
         "text" => gen_text(&mut p, len),
         "utf8crlf" => gen_utf8_crlf(&mut p, len),
+        "utf8defect" => {
+            // legal CRLF text with exactly one illegal line ending
+            let mut t = gen_utf8_crlf(&mut p, len);
+            let spots: Vec<usize> = (0..t.len().saturating_sub(1)).filter(|i| t[*i] == b'\r' && t[*i + 1] == b'\n').collect();
+            if spots.is_empty() {
+                t.extend_from_slice(b"\r\n\n");
+            } else {
+                let at = *p.pick(&spots);
+                match p.below(4) {
+                    0 | 1 => t.insert(at + 2, b'\n'), // CR LF LF
+                    2 => {
+                        t.remove(at); // bare LF
+                    }
+                    _ => {
+                        t.insert(at, b'\n'); // LF CR LF
+                    }
+                }
+            }
+            t
+        }
         "crlfmix" => {
             let alphabet = [b'\r', b'\n', b'x', b'\r', b'\n', b' ', b'\t', b'-', b'a'];
             (0..len).map(|_| *p.pick(&alphabet)).collect()
